@@ -4,6 +4,7 @@ CONSTANTS MaxRows = 3
           MaxVal = 1
           P = 2
           DoubleCount = FALSE
+          HashAll = FALSE
           EmitMod = 1000000
 INIT Init
 NEXT Next
